@@ -217,6 +217,10 @@ void execute_embed(const Plan& plan) {
     sim::begin_op(Op(), plan.ops.size());
     Label l = a.new_label();
     size_t before = prefix;
+    // optionally the user has aligned the position already - weaker or stronger than the pool needs; the pool's own alignment
+    // must not rely on it
+    size_t user_align = size_t(plan.get("user_align", 0));
+    if (usable && user_align) { usable = a.align(AlignMode::kData, uint32_t(user_align)) == Error::kOk; before = (prefix + user_align - 1) & ~(user_align - 1); sim::count("c19.probe.embed_after_user_alignment"); }
     Error e = usable ? a.embed_const_pool(l, pool) : Error::kOutOfMemory;
     if (e == Error::kOk && via_builder) e = a.finalize();
     if (e != Error::kOk) {
@@ -368,6 +372,7 @@ Plan generate_common(uint64_t seed, bool thorough, bool allow_reset) {
   p.set("multi_func", int64_t(cfg.below(2)));
   p.set("trailing_consts", cfg.chance(1, 3) ? int64_t(1 + cfg.below(3)) : 0);
   p.set("prefix_nops", int64_t(cfg.below(70)));
+  p.set("user_align", int64_t(cfg.chance(1, 2) ? 0 : (1 << (1 + cfg.below(6)))));
   int fault_class = int(cfg.below(3));
   p.set("fault_class", fault_class);
   size_t nops = thorough ? size_t(2 + r.below(r.chance(1, 8) ? 600 : 80)) : size_t(2 + r.below(r.chance(1, 10) ? 200 : 40));
@@ -395,7 +400,7 @@ Plan generate_direct(uint64_t seed, bool thorough) { return generate_common(seed
 Plan generate_embed(uint64_t seed, bool thorough) { return generate_common(seed, thorough, false); }
 
 void shrink(const Plan& p, std::vector<Plan>& out) {
-  static const char* const zero_keys[] = {"junk", "shift", "arena_block", "realloc_move", "code_buffer", "prefix_nops", "abandoned", "builder"};
+  static const char* const zero_keys[] = {"junk", "shift", "arena_block", "realloc_move", "code_buffer", "prefix_nops", "abandoned", "builder", "user_align"};
   for (const char* k : zero_keys) if (p.get(k)) { Plan q = p; q.set(k, 0); out.push_back(q); }
 }
 
